@@ -288,10 +288,10 @@ def handle (case obs : List String) : String × String :=
     | some b =>
       let w := (valueFromBytes .binary b).getD []
       let showD : Option Bytes → String := fun | some d => hex d | none => "!"
-      let model := [hex w, showD (valueToBytes .binary w), showD (valueToBytes .binary (B64.encode true b)),
+      let model := ["w", hex w, showD (valueToBytes .binary w), showD (valueToBytes .binary (B64.encode true b)),
         if valuesEqual .binary (B64.encode true b) w then "1" else "0"]
       let vd := match obs with
-        | [ow, d1, d2, eq] =>
+        | [_, ow, d1, d2, eq] =>
           match unhex ow with
           | some ow =>
             [("wire-is-base64-of-value", Spec.Metadata.carriesBinary ow b),
@@ -307,9 +307,9 @@ def handle (case obs : List String) : String × String :=
     | some w =>
       if !HMap.legalValue w then ("not-a-header-value", "ok") else
       let showD : Option Bytes → String := fun | some d => hex d | none => "!"
-      let model := [showD (valueToBytes .binary w), if valueIsEmpty .binary w then "1" else "0"]
+      let model := ["d", showD (valueToBytes .binary w), if valueIsEmpty .binary w then "1" else "0"]
       let vd := match obs with
-        | [d, _] => [("decodes-as-base64-padding-indifferent", d == showD (B64.decode w))]
+        | [_, d, _] => [("decodes-as-base64-padding-indifferent", d == showD (B64.decode w))]
         | _ => [("observed-parses", false)]
       (join model, verdict vd)
   | ["bineq", ha, hb] =>
@@ -390,7 +390,7 @@ def handle (case obs : List String) : String × String :=
       match run n rest [] [] with
       | none => bad
       | some (m, toks) =>
-        let model := toks ++ ("map" :: HMap.render m) ++ ("view" :: renderRows (typedView v m))
+        let model := ("r" :: toks) ++ ("map" :: HMap.render m) ++ ("view" :: renderRows (typedView v m))
         let vd := match splitOn1 "view" obs with
           | some (_, vt) =>
             match parseRows vt with
@@ -435,7 +435,7 @@ def handle (case obs : List String) : String × String :=
         | _ + 1, _, _, _ => none
       match runH n rest [] [] with
       | none => bad
-      | some (m, toks) => (join (toks ++ ("map" :: HMap.render m)), "ok")
+      | some (m, toks) => (join (("r" :: toks) ++ ("map" :: HMap.render m)), "ok")
   | "e2e" :: mode :: c :: m :: d :: rest =>
     match nat? c, unhex m, unhex d, parseTyped rest with
     | some c, some m, some d, some (req, r1) =>
